@@ -36,6 +36,8 @@ struct Shared {
     bool crl_mode = false;                   // clients validate strictly; a CRL thread inserts / clears CRLs in the global CRL cache
     psX509Crl_t *crl[2] = { nullptr, nullptr };   // [0] revokes nothing, [1] revokes the server's certificate (both authenticated against the CA)
     psX509Cert_t *ca = nullptr;
+    bool crl_owned = false;                  // cfg crl=2: every insertion parses a fresh (not yet authenticated) CRL and hands it to the cache with deleteExisting=1; clear = psCRL_DeleteAll
+    Bytes crl_der[2];
 };
 
 struct ThreadCtx {
@@ -146,7 +148,18 @@ int32 ticket_cb(void *keys, unsigned char name[16], short found) {
 void run_crl(ThreadCtx &T, const Op &op, int opi) {
     Outcome o; o.thread = T.idx; o.opi = opi;
     vsim_set_node(NODE_HARNESS);
-    if (op.k == "crl_clear") { o.kind = "crl_clear"; o.inv = vs_event_seq(); psCRL_RemoveAll(); o.ret = vs_event_seq(); }
+    if (op.k == "crl_clear") { o.kind = "crl_clear"; o.inv = vs_event_seq(); if (T.sh->crl_owned) { psCRL_DeleteAll(); } else { psCRL_RemoveAll(); } o.ret = vs_event_seq(); }
+    else if (T.sh->crl_owned) {
+        // a CRL refresh as an application does it: parse what was downloaded, authenticate it against the CA, let the cache replace (and free)
+        // the previous CRL of that issuer
+        int which = (int) (op.b & 1); o.kind = which ? "crl_add_revoking" : "crl_add_clean";
+        psX509Crl_t *c = nullptr;
+        o.inv = vs_event_seq();
+        if (psX509ParseCRL(nullptr, &c, T.sh->crl_der[which].data(), (int32) T.sh->crl_der[which].size()) < 0) { o.rc = -1; }
+        else if (psX509AuthenticateCRL(T.sh->ca, c, nullptr) < 0) { o.rc = -2; psX509FreeCRL(c); }     // the application authenticates what it downloaded before caching it
+        else { o.rc = psCRL_Update(c, 1); if (o.rc < 0) { psX509FreeCRL(c); } }
+        o.ret = vs_event_seq();
+    }
     else { int which = (int) (op.b & 1); o.kind = which ? "crl_add_revoking" : "crl_add_clean"; o.inv = vs_event_seq(); o.rc = psCRL_Update(T.sh->crl[which], 0); o.ret = vs_event_seq(); }
     T.out.push_back(o);
     T.fp = mix64(T.fp, hash_str(o.kind.c_str()));
@@ -185,7 +198,7 @@ static Plan c20_gen(uint64_t seed, int tier, uint64_t index) {
     if (r.chance(1, 4)) { p.cfg["pct"] = 1 + (int64_t) r.below(3); p.cfg["pspan"] = 200 + (int64_t) r.below(6000); }
     if (r.chance(1, 2)) { p.cfg["tcb"] = 1; }
     bool crl = r.chance(1, 3);
-    if (crl) { p.cfg["crl"] = 1; p.cfg["sid_kind"] = KK_RSA2048; }   // psX509AuthenticateCRL of this tree rejects every ECDSA-signed CRL (observation, DESIGN 16.8): RSA identities only      // the server application registers a session-ticket key callback
+    if (crl) { p.cfg["crl"] = r.chance(1, 2) ? 2 : 1; p.cfg["sid_kind"] = KK_RSA2048; }   // psX509AuthenticateCRL of this tree rejects every ECDSA-signed CRL (observation, DESIGN 16.8): RSA identities only      // the server application registers a session-ticket key callback
     int rotates = 0;
     bool overlap = !crl && r.chance(1, 3);      // threads keep connections open across later operations and have fatal alerts hit sessions
     for (int t = 0; t < nt; t++) {
@@ -208,6 +221,7 @@ static Plan c20_gen(uint64_t seed, int tier, uint64_t index) {
         auto insert_at = [&](const Op &o) { size_t pos = (size_t) r.below(p.ops.size() + 1); p.ops.insert(p.ops.begin() + (long) pos, o); };
         insert_at(Op("crl_add", (int64_t) r.below((uint64_t) nt), 1));
         if (r.chance(2, 3)) { insert_at(r.chance(1, 2) ? Op("crl_clear", (int64_t) r.below((uint64_t) nt)) : Op("crl_add", (int64_t) r.below((uint64_t) nt), 0)); }
+        if (p.get("crl") == 2) { int extra = (int) r.below(3); for (int i = 0; i < extra; i++) { insert_at(Op("crl_add", (int64_t) r.below((uint64_t) nt), 1)); } }   // refreshes of the revoking CRL (same content, new object: the old one is freed)
     }
     return p;
 }
@@ -272,13 +286,14 @@ static RunResult c20_exec(const Plan &p) {
     bool setup_ok = sh.skeys != nullptr;
     std::string crl_err;
     if (p.get("crl") && setup_ok) {
-        sh.crl_mode = true;
+        sh.crl_mode = true; sh.crl_owned = p.get("crl") == 2;
         struct vsim_keymat km; vsim_keymat(sh.server_kind, &km);
         vsim_set_node(NODE_HARNESS);
         if (psX509ParseCert(nullptr, km.ca, (uint32) km.caLen, &sh.ca, 0) < 0) { setup_ok = false; crl_err = "CA parse"; }
         for (int i = 0; i < 2 && setup_ok; i++) {
             Bytes der;
             if (!ossl_make_crl(sh.server_kind, i == 1, der, &crl_err)) { setup_ok = false; break; }
+            sh.crl_der[i] = der;
             if (psX509ParseCRL(nullptr, &sh.crl[i], der.data(), (int32) der.size()) < 0) { setup_ok = false; crl_err = "psX509ParseCRL"; break; }
             int arc = psX509AuthenticateCRL(sh.ca, sh.crl[i], nullptr);
             if (getenv("VSIM_DUMP_CRL")) { FILE *f = fopen((std::string(getenv("VSIM_DUMP_CRL")) + (arc < 0 ? ".bad" : ".good") + std::to_string(i)).c_str(), "wb"); if (f) { fwrite(der.data(), 1, der.size(), f); fclose(f); } }
@@ -319,13 +334,14 @@ static RunResult c20_exec(const Plan &p) {
             // CRL cache: is the revoking CRL in the table in some / every sequential order consistent with the history?
             bool revoke_possible = false, revoke_certain = false;
             if (sh.crl_mode) {
-                const Outcome *add = nullptr, *rem = nullptr;
-                for (auto &x : all) { if (x.kind == "crl_add_revoking" && x.rc >= 0) { add = &x; } else if (x.kind == "crl_clear" || (x.kind == "crl_add_clean" && x.rc >= 0)) { rem = &x; } }
-                if (add) {
-                    bool removed_before = rem && rem->inv > add->ret && rem->ret < o.inv;          // remover entirely between the insertion and this connection
-                    bool remover_harmless = !rem || rem->ret < add->inv || rem->inv > o.ret;       // remover entirely before the insertion, or after this connection
-                    revoke_possible = add->inv < o.ret && !removed_before;
-                    revoke_certain = add->ret < o.inv && remover_harmless;
+                // several insertions of the revoking CRL (refreshes) and at most one remover (clean CRL of the same issuer, or clear)
+                const Outcome *rem = nullptr; std::vector<const Outcome *> adds;
+                for (auto &x : all) { if (x.kind == "crl_add_revoking" && x.rc >= 0) { adds.push_back(&x); } else if (x.kind == "crl_clear" || (x.kind == "crl_add_clean" && x.rc >= 0)) { rem = &x; } }
+                for (auto *add : adds) {
+                    bool removed_before = rem && rem->inv > add->ret && rem->ret < o.inv;          // remover entirely between this insertion and this connection
+                    bool remover_harmless = !rem || rem->ret < add->inv || rem->inv > o.ret;       // remover entirely before this insertion, or after this connection
+                    if (add->inv < o.ret && !removed_before) { revoke_possible = true; }
+                    if (add->ret < o.inv && remover_harmless) { revoke_certain = true; }
                 }
             }
             if (o.ok && !o.resumed_s && revoke_certain) {
@@ -383,7 +399,7 @@ static RunResult c20_exec(const Plan &p) {
     for (auto &t : T) { if (t.sid) { matrixSslDeleteSessionId(t.sid); } if (t.ckeys && !share) { matrixSslDeleteKeys(t.ckeys); } }
     if (sh.ckeys_shared) { matrixSslDeleteKeys(sh.ckeys_shared); }
     if (sh.skeys) { matrixSslDeleteKeys(sh.skeys); }
-    if (sh.crl_mode) { psCRL_RemoveAll(); for (int i = 0; i < 2; i++) { if (sh.crl[i]) { psX509FreeCRL(sh.crl[i]); } } if (sh.ca) { psX509FreeCert(sh.ca); } }
+    if (sh.crl_mode) { if (sh.crl_owned) { psCRL_DeleteAll(); } else { psCRL_RemoveAll(); } for (int i = 0; i < 2; i++) { if (sh.crl[i]) { psX509FreeCRL(sh.crl[i]); } } if (sh.ca) { psX509FreeCert(sh.ca); } }
     sim_global_close();
     return res;
 }
